@@ -1,1 +1,4 @@
-/-! Property theorems for C19 (none yet). -/
+/-! Property theorems for C19 live in the three files imported here. -/
+import MirVerif.Props.C19.Htab
+import MirVerif.Props.C19.Bitmap
+import MirVerif.Props.C19.Seq
